@@ -40,7 +40,21 @@ func isExit(in ssa.Instruction) bool {
 // Deferred calls matching b that are registered on every path before the
 // start discharge the obligation too (they run at every exit).
 func (c *Ctx) mustFollow(fn *ssa.Function, what string, starts []start, b Sel, bname string, cut ir.Cut, minStarts int) bool {
+	return c.mustFollowOpt(fn, what, starts, b, bname, cut, minStarts, false)
+}
+
+// mustFollowIter is mustFollow scoped to one loop iteration: reaching the back
+// edge of the innermost loop around the start point without having passed b
+// counts like an exit.
+func (c *Ctx) mustFollowIter(fn *ssa.Function, what string, starts []start, b Sel, bname string, cut ir.Cut, minStarts int) bool {
+	return c.mustFollowOpt(fn, what, starts, b, bname, cut, minStarts, true)
+}
+
+func (c *Ctx) mustFollowOpt(fn *ssa.Function, what string, starts []start, b Sel, bname string, cut ir.Cut, minStarts int, iter bool) bool {
 	construct := fmt.Sprintf("%s | from %s | must reach %s before exit", c.nm(fn), what, bname)
+	if iter {
+		construct = fmt.Sprintf("%s | from %s | must reach %s within the iteration", c.nm(fn), what, bname)
+	}
 	pos := c.P.Pos(fn.Pos())
 	if len(starts) < minStarts {
 		c.undecided(construct, pos, fmt.Sprintf("found %d start point(s) %q, the rule table requires at least %d", len(starts), what, minStarts))
@@ -54,12 +68,36 @@ func (c *Ctx) mustFollow(fn *ssa.Function, what string, starts []start, b Sel, b
 		if c.deferredBefore(fn, s, b) {
 			continue
 		}
-		ir.Walk(s.b, s.idx, cut, func(in ssa.Instruction) bool {
-			if b(in) {
-				if _, isDefer := in.(*ssa.Defer); !isDefer {
+		wcut := cut
+		if iter {
+			h := ir.LoopHeaderOf(s.b)
+			if h == nil {
+				bad = append(bad, fmt.Sprintf("%s is not inside a loop", s.desc))
+				continue
+			}
+			// back edges end the iteration: a path arriving there without b fails
+			be := ir.BackEdgesTo(h)
+			wcut = ir.Union(cut, be)
+			arrived := map[*ssa.BasicBlock]bool{}
+			ir.Walk(s.b, s.idx, wcut, func(in ssa.Instruction) bool {
+				if b(in) {
 					return false
 				}
-				return false // a defer registered on this path runs at its exit
+				blk := in.Block()
+				if in == blk.Instrs[len(blk.Instrs)-1] {
+					arrived[blk] = true
+				}
+				return true
+			})
+			for e := range be {
+				if arrived[e.From] {
+					bad = append(bad, fmt.Sprintf("next iteration (back edge from the block ending at %s) reachable from %s without %s", c.at(e.From.Instrs[len(e.From.Instrs)-1]), s.desc, bname))
+				}
+			}
+		}
+		ir.Walk(s.b, s.idx, wcut, func(in ssa.Instruction) bool {
+			if b(in) {
+				return false
 			}
 			if isExit(in) {
 				bad = append(bad, fmt.Sprintf("exit at %s reachable from %s without %s", c.at(in), s.desc, bname))
